@@ -15,7 +15,7 @@ None == [a |-> "-", k |-> 0]
 GenInit == Init /\ hist = <<>> /\ pend = None
 
 Finished == (cend # "open" \/ cgone) /\ ost # "started"
-Quiet == Calm /\ pend = None /\ ~Finished
+Quiet == CalmS /\ pend = None /\ ~Finished
 Env(a, k) == pend' = [a |-> a, k |-> k] /\ UNCHANGED hist
 
 \* own answers are exact; a 200 is owed when OwedHdr says so
@@ -45,11 +45,11 @@ GClose  == Quiet /\ CClose /\ Env("CliClose", 0)
 GOther  == Quiet /\ ust = "hdr" /\ Chunks(sent) = N /\ OStart /\ Env("Other", 0)
 
 \* ---- the proxy and the reading client: required steps only, reads before flushes
-GProxy  == /\ (PDial \/ PRead \/ PTimeout \/ PCancel \/ CRead \/ ODone \/ (~ENABLED PRead /\ PFlushDue))
+GProxy  == /\ (PDial \/ PRead \/ PTimeout \/ PCancel \/ CRead \/ ODone \/ (~(pst \in {"wait", "copy"} /\ uwire # <<>>) /\ PFlushDue))
            /\ UNCHANGED <<hist, pend>>
 
 \* ---- calm again: the observation of the step is recorded
-Settle  == /\ Calm /\ pend # None /\ ost # "started"
+Settle  == /\ CalmS /\ pend # None /\ ost # "started"
            /\ hist' = Append(hist, Entry) /\ pend' = None
            /\ UNCHANGED vars
            /\ (Finished => PrintT(ToJson([sc |-> sc, steps |-> hist'])))
@@ -58,6 +58,6 @@ GenNext == GReq \/ GHdr \/ GSlow \/ GEarly \/ GWrite \/ GEnd \/ GCut \/ GRst \/ 
 GenSpec == GenInit /\ [][GenNext]_gvars
 
 \* every generated step is a step of the design and the design's safety properties hold on the way
-GenConsistent == TypeOK /\ Integrity /\ HeaderFirst /\ MappingAsBuilt /\ NeverForged /\ CalmDelivered
+GenConsistent == ScOK(sc) /\ Integrity /\ HeaderFirst /\ MappingAsBuilt /\ NeverForged /\ CalmDelivered
 GenView == <<vars, pend>>
 =============================================================================
